@@ -20,6 +20,16 @@ using namespace sqf::types;
 
 namespace
 {
+    // Keys are captured by value: an array used as key is copied at insertion, so
+    // mutating the original afterwards cannot change (or lose) the stored entry.
+    value capture_key(value::cref key)
+    {
+        if (key.is<t_array>())
+        {
+            return value(key.data<d_array>()->copy_deep());
+        }
+        return key;
+    }
     value createhashmap_(runtime& runtime)
     {
         return std::make_shared<d_hashmap>();
@@ -39,7 +49,7 @@ namespace
                     auto& key = subArr->at(0);
                     auto& value = subArr->at(1);
                     // ToDo: Check key-type matches
-                    hashmap[key] = value;
+                    hashmap[capture_key(key)] = value;
                 }
                 else
                 {
@@ -70,7 +80,7 @@ namespace
             auto& key = arr->at(0);
             auto& value = arr->at(1);
             // ToDo: Check key-type matches
-            data->map()[key] = value;
+            data->map()[capture_key(key)] = value;
         }
         else
         {
